@@ -39,14 +39,31 @@ def canon(x, depth=0):
         extra = []
         if isinstance(x, float):
             extra = [float(x).hex()]
-        return ["obj", type(x).__name__] + extra + [[k, canon(v, depth + 1)] for k, v in sorted(vars(x).items())]
+        return ["obj", type(x).__name__] + extra + [[k, canon(v, depth + 1)] for k, v in sorted(_public_state(x, vars(x)).items())]
     slots = pub_attrs(x)
     if slots:
-        return ["obj", type(x).__name__] + [[k, canon(v, depth + 1)] for k, v in sorted(slots.items())]
+        return ["obj", type(x).__name__] + [[k, canon(v, depth + 1)] for k, v in sorted(_public_state(x, slots).items())]
     r = repr(x)
     if " at 0x" in r:
         r = "<%s object>" % type(x).__name__          # (a default repr carries an address: not a value)
     return ["repr", r]
+
+
+def _public_state(x, attrs):
+    """The state of an object that its users can observe: instance attributes whose names do not start with an underscore,
+    plus the values of the public properties of its class.  "Modifies an object supplied by the caller" is read as "changes what
+    the caller can observe of it": a private, never-stale memo the library parks on an object (an `_x` attribute whose content
+    is a pure function of the public fields) is not a modification, a changed field is - whether it is stored publicly or behind
+    a property.  An object with no public state at all is compared by everything it holds."""
+    out = {k: v for k, v in attrs.items() if not str(k).startswith("_")}
+    for klass in type(x).__mro__:
+        for name, member in vars(klass).items():
+            if isinstance(member, property) and not name.startswith("_") and name not in out:
+                try:
+                    out[name] = getattr(x, name)
+                except Exception as e:      # noqa: a property that raises is part of the state too
+                    out[name] = "<%s>" % type(e).__name__
+    return out if out else dict(attrs)
 
 
 # ------------------------------------------------------------------------------------------------ constants: snapshot + barrier
@@ -57,6 +74,7 @@ class Barrier(object):
         self.ids = {}
         self.log = []
         self.benign = 0
+        self.private = 0
         self.installed = False
 
 
@@ -98,7 +116,9 @@ def install_barrier():
                 if who is not None:
                     old = getattr(self, name, _MISSING)
                     same = old is not _MISSING and canon(old) == canon(value)
-                    if same:
+                    if str(name).startswith("_"):
+                        BARRIER.private += 1        # a private attribute (a memo the library keeps on its own constant): not observable
+                    elif same:
                         BARRIER.benign += 1
                     else:
                         BARRIER.log.append([who, name, canon(None if old is _MISSING else old), canon(value)])
@@ -687,8 +707,27 @@ def call_strategy(families=False, raw_pool=False):
         return pool
     pool = [with_rep(e) for e in pool]
     if families:
-        return st.one_of(*[_family(e) for e in pool])
+        sz = _signed_zero_twins(st.one_of(*pool))
+        return st.one_of(*([_family(e) for e in pool] + [sz, sz, sz]))
     return st.one_of(*pool)
+
+
+_SZ_KEYS = ("lat", "lon", "lat1", "lon1", "lat2", "lon2", "az", "brg", "theta", "x", "y", "z", "h", "rot", "rh", "T", "hi", "ht", "offset")
+
+
+def _signed_zero_twins(calls):
+    """The same call twice with one number 0.0 in one and -0.0 in the other (either order): the two compare and hash equal, so a
+    memo keyed on the arguments serves one the other's result - whose signed zeros (and whatever depends on them) may differ."""
+    def twin(t):
+        call, pick, flip = t
+        keys = [k for k in _SZ_KEYS if isinstance(call["a"].get(k), float)]
+        if not keys:
+            return [call, copy.deepcopy(call)]
+        k = keys[pick % len(keys)]
+        a = {"fn": call["fn"], "a": dict(call["a"], **{k: 0.0})}
+        b = {"fn": call["fn"], "a": dict(call["a"], **{k: -0.0})}
+        return [b, a] if flip else [a, b]
+    return st.tuples(calls, st.integers(0, 50), st.booleans()).map(twin)
 
 
 ANGLE_FNS = ["dec>dec2hp", "dec>dec2gon", "dec>dec2dms", "dec>dec2ddm", "dec>dec2hpa", "hp>hp2dec", "hp>hp2rad", "hp>hp2gon", "hp>hp2dms", "hp>hp2ddm",
